@@ -34,6 +34,8 @@ RULES = {
     "empty": ("Rule((), Value.keys_contain_at_least_N_of(n, ['a', 's', 'zz']))", [("n", "int")]),
     "null": ("Rule(('a',), NullCondition())", []),
     "emptycast": ("Rule(('a', 'b'), Value.falsy(), cast={})", []),
+    "docstr": ("Rule.from_spec({'path': ['a', 'b'], 'condition': {'value.equal_to': t}, 'doc': 'the b of a '})", [("t", "int")]),
+    "docmap": ("Rule(('s',), Value.equal_to(True), cast={str: valida.casting.cast_string_to_bool}, doc={'description': ['flag'], 'examples': ['s: true']})", []),
 }
 
 
@@ -81,7 +83,7 @@ return ok
 COMBOS = [
     ["eq"], ["fan"], ["castbool"], ["castint"], ["castfan"], ["castmap"], ["keycond"], ["patharg"], ["patharg2"], ["intkey"], ["mol"],
     ["empty"], ["null"], ["emptycast"], ["castbool", "castint"], ["eq", "castbool", "fan"], ["castfan", "castmap"], ["keycond", "castint", "empty"],
-    ["patharg", "castint"], ["mol", "null", "castbool"],
+    ["patharg", "castint"], ["mol", "null", "castbool"], ["docstr"], ["docmap", "docstr", "fan"],
 ]
 
 
